@@ -8,7 +8,7 @@ from ..src import arg_names, calls_in, unparse
 from . import c14
 
 LEVEL = "other"
-TECHNIQUE = "sibling-table lint over the five solver paths (lu single/blocked, gmres single/blocked, cg) on canonical provenance expressions"
+TECHNIQUE = "sibling-table lint over the five solver paths (lu single/blocked, gmres single/blocked, cg) on canonical provenance expressions; inherited term and packing rules of C14 (strong form, dtype fold, running offsets)"
 LEVEL_TEXT = (
     "Only the plumbing clause of the statement is decided: each solver path hands scipy the operator and right-hand "
     "side of the stated system (weak form with projections onto the dual space, or strong form with coefficients "
